@@ -7,11 +7,13 @@
     to the first configuration that contains the response has a "visit" event of [t] in between.
     [feldman_iter_visited_was_in]: every "visit k" of the iteration: k is the key of an element that was in the tree in one of
     these configurations.  [feldman_iter_complete_elem]: an element in the tree with a constant key in all of them is visited.
+    [feldman_iter_erase_at], [removal_exact]: what "erased true / false" means (a removal step of this thread that takes exactly
+    the visited element out of the tree / the element was seen to be nowhere).
     Proof: induction along the execution with the invariant [GI] (ConcRel.okR + FeldmanIterTraceInv.Emb per thread), each step
     decomposed by ConcRel.step_R into the ghost transition of its access and those of the emissions settled with it. *)
 From Coq Require Import ZArith NArith List Bool Arith PeanoNat Lia String.
 From LV Require Import Base.Conc Base.Events Model.Feldman Model.FeldmanIter.
-From LV Require Proofs.FeldmanIterSafe.
+From LV Require Proofs.FeldmanIterSafe Proofs.FeldmanIterThm.
 From LV Require Import Proofs.FeldmanStepInv Proofs.FeldmanStepThm Proofs.ConcRel Proofs.FeldmanIterTraceDefs
                        Proofs.FeldmanIterTraceInv Proofs.FeldmanIterReachIter.
 Import ListNotations.
@@ -65,19 +67,20 @@ Section Thm.
     intros Hcg Hg HLc HL tr es w w2 Hch. induction Hch as [tr w|tr es es' w w1 w2 [_ HT] Hch IH]; intros HE Hlen Hcs.
     - cbn. rewrite app_nil_r. exact HE.
     - rewrite app_length in Hlen. rewrite Conc.tag_app, app_assoc. apply IH.
-      + eapply Emb_TR; eauto. lia.
+      + eapply Emb_TR; eauto. split; [exact Hcg|]. split; [exact Hg|]. split; [lia|left; reflexivity].
       + rewrite len_tag. lia.
       + intros c' Hc'. destruct (Hcs c' Hc') as [K|K]; [left; rewrite len_tag; lia|right; exact K].
   Qed.
 
   (** the invariant of an execution *)
   Definition GI (cs : list config) (c : config) : Prop :=
-    exists a ws, okR c a ws /\ (forall c', In c' cs -> len (Conc.trace c') <= len (Conc.trace c)) /\ In c cs /\
+    exists a ws, okR c a ws /\ (forall c', In c' cs -> len (Conc.trace c') <= len (Conc.trace c)) /\ (exists l, cs = l ++ [c]) /\
                  forall t, Emb t cs (Conc.trace c) (ws t).
 
   Lemma GI_step cs c t c' : GI cs c -> Conc.step_cfg c t = Some c' -> GI (cs ++ [c']) c'.
   Proof.
-    intros (a & ws & Hok & Hlen & Hin & HE) Hs.
+    intros (a & ws & Hok & Hlen & (l0 & Hl0) & HE) Hs.
+    assert (Hin : In c cs) by (rewrite Hl0; apply in_or_app; right; left; reflexivity).
     destruct (@ConcRel.step_R G V ev Aux L WI view Inv SR c t c' a ws Hok Hs) as (a' & es0 & es1 & w1 & w2 & Etr & [_ HT0] & Hch & Hok').
     assert (Ltr : len (Conc.trace c') = len (Conc.trace c) + List.length es0 + List.length es1).
     { rewrite Etr, len_tag, app_length. lia. }
@@ -85,12 +88,15 @@ Section Thm.
     { intros c1 H1. apply in_app_or in H1. destruct H1 as [H1|[<-|[]]]; [specialize (Hlen c1 H1); lia|lia]. }
     assert (Hcs0 : forall c1, In c1 (cs ++ [c']) -> len (Conc.trace c1) <= len (Conc.trace c) \/ len (Conc.trace c1) = len (Conc.trace c')).
     { intros c1 H1. apply in_app_or in H1. destruct H1 as [H1|[<-|[]]]; [left; apply Hlen; exact H1|right; reflexivity]. }
-    exists a', (ConcRel.updw ws t w2). split; [exact Hok'|]. split; [exact Hlen'|]. split; [apply in_or_app; right; left; reflexivity|].
+    exists a', (ConcRel.updw ws t w2). split; [exact Hok'|]. split; [exact Hlen'|]. split; [exists cs; reflexivity|].
     intros u. unfold ConcRel.updw. destruct (Nat.eqb_spec u t) as [->|Hne].
     - assert (E0 : Emb t (cs ++ [c']) (Conc.trace c) (ws t)).
       { apply Emb_cs_ext; [apply HE|]. intros c1 H1. specialize (Hlen c1 H1). lia. }
       assert (E1 : Emb t (cs ++ [c']) (Conc.trace c ++ Conc.tag t es0) w1).
-      { eapply Emb_TR with (cg := c) (L := len (Conc.trace c')); eauto. apply in_or_app; left; exact Hin. }
+      { eapply Emb_TR with (cg := c) (L := len (Conc.trace c')); eauto.
+        split; [apply in_or_app; left; exact Hin|]. split; [reflexivity|]. split; [apply le_n|]. right. exists c'.
+        split; [exists l0, []; rewrite Hl0, <- app_assoc; reflexivity|]. split; [reflexivity|]. split; [reflexivity|].
+        exists (es0 ++ es1). exact Etr. }
       rewrite Etr, Conc.tag_app, app_assoc.
       eapply Emb_chunk with (cg := c') (L := len (Conc.trace c')); eauto.
       + apply in_or_app; right; left; reflexivity.
@@ -105,9 +111,9 @@ Section Thm.
   Proof.
     exists FeldmanStepSafe.A0, (fun _ => w0). split; [apply init_okRI; assumption|]. split.
     - intros c' [<-|[]]. lia.
-    - split; [left; reflexivity|]. intros t. split; [apply TInv_init|]. split; [|split; [|apply Fin_init]].
-      + intros X. discriminate X.
-      + intros X. discriminate X.
+    - split; [exists []; reflexivity|]. intros t. split; [apply TInv_init|].
+      split; [intros X; discriminate X|]. split; [intros X; discriminate X|]. split; [intros X; discriminate X|].
+      split; [apply Fin_init|apply FinE_init].
   Qed.
 
   Lemma GI_steps fuel ths cs c : steps (init_cfgI hbits abits W hs fuel ths) cs c -> GI cs c.
@@ -127,6 +133,37 @@ Section Thm.
   Qed.
 
   (** ** the theorems *)
+  (** do_erase_at: what the answer reported by an "erased" event means ([FeldmanIterTraceInv.ErC]) *)
+  Theorem feldman_iter_erase_at fuel ths cs c :
+    steps (init_cfgI hbits abits W hs fuel ths) cs c ->
+    forall t e b, nth_error (Conc.trace c) e = Some (t, ev_erased b) -> ErC t (Conc.trace c) cs e b.
+  Proof.
+    intros Hst t e b E. destruct (GI_steps Hst) as (a & ws & _ & _ & _ & HE). destruct (HE t) as (_ & _ & _ & _ & _ & HFE).
+    apply HFE. exact E.
+  Qed.
+
+  (** a removal step changes the tree exactly by taking [x] out (FeldmanIterThm.erase_at_true_exact at that step) *)
+  Theorem removal_exact fuel ths cs c t c1 c2 x :
+    steps (init_cfgI hbits abits W hs fuel ths) cs c -> removal t cs c1 c2 x -> x <> 0 ->
+    (forall a' i' y, data_at (Conc.shared c2) a' i' y <->
+                     (data_at (Conc.shared c1) a' i' y /\ arr (Conc.shared c1) a' i' <> mkSlot x 0)) /\
+    (forall a' i', ~ data_at (Conc.shared c2) a' i' x) /\
+    (forall h, present (Conc.shared c2) h <-> (present (Conc.shared c1) h /\ h <> hash (ikey (Conc.shared c1) x))).
+  Proof.
+    intros Hst ((l1 & l2 & Hcs) & _ & a & i & Hs & Hr & E2) Hx.
+    assert (Hin : In c1 cs) by (rewrite Hcs; apply in_or_app; right; left; reflexivity).
+    destruct (@FeldmanIterSafe.feldman_iter_inv hbits abits W hs Hh Ha fuel ths c1 (steps_in_reach Hst c1 Hin)) as (A & HI).
+    destruct (@FeldmanIterThm.erase_at_true_exact hbits abits hs Hh Ha (Conc.shared c1) A (Conc.trace c1) a i x HI Hr Hs Hx) as (F1 & F2 & F3).
+    rewrite E2. split; [|split; [exact F2|exact F3]].
+    intros a' i' y. rewrite (F1 a' i' y). split.
+    - intros [D Hne]. split; [exact D|]. intros E. apply Hne.
+      assert (Da : data_at (Conc.shared c1) a i x) by (split; [exact Hr|exists 0; repeat split; auto]).
+      assert (Da' : data_at (Conc.shared c1) a' i' x).
+      { destruct D as (R' & b' & Hb' & _). split; [exact R'|]. exists 0. rewrite E. repeat split; auto. }
+      destruct (FeldmanStepThm.nodup_inv Hh Ha HI Da' Da eq_refl) as (E1 & E3 & _). congruence.
+    - intros [D Hne]. split; [exact D|]. intros E. inversion E; subst. apply Hne. exact Hs.
+  Qed.
+
   Section Iteration.
     Variables (fuel : nat) (ths : list (list (list Z))) (cs : list config) (c : config).
     Hypothesis Hst : steps (init_cfgI hbits abits W hs fuel ths) cs c.
@@ -152,7 +189,7 @@ Section Thm.
 
     Lemma iter_FinC : FinC hs t (Conc.trace c) cs n m.
     Proof.
-      destruct (GI_steps Hst) as (a & ws & _ & _ & _ & HE). destruct (HE t) as (_ & _ & _ & HF).
+      destruct (GI_steps Hst) as (a & ws & _ & _ & _ & HE). destruct (HE t) as (_ & _ & _ & _ & HF & _).
       assert (E1 : nth_error (Conc.trace c) n = Some (t, ev_inv code k)) by (rewrite Etr; apply nth_mid).
       assert (E2 : nth_error (Conc.trace c) m = Some (t, ev_ret true false)).
       { rewrite Etr. replace (tr0 ++ [(t, ev_inv code k)] ++ mid ++ [(t, ev_ret true false)] ++ rest)
